@@ -13,7 +13,7 @@ ORACLES = {
                    "and leaves the state unchanged",
 }
 RULE = ("Random tier: Hypothesis draws a size n (1..70 quick, ..200 thorough, biased to byte "
-        "boundaries) and 1..60 operations (set_bit, clear_bit, b[i]=v with v in {0,1,True,False,2,-1,3}, "
+        "boundaries; 1 case in 40 uses a LARGE size 300..70000 incl. 4089/4096/8192/8193/65537 with <= 8 operations) and 1..60 operations (set_bit, clear_bit, b[i]=v with v in {0,1,True,False,2,-1,3}, "
         "check_bit, is_bit_set, b[i], clear, as_string, num_bits_set) with indices from a small per-case pool of hot positions (so writes and reads "
         "revisit positions), [-n-3, n+10], boundary and huge values; a Python list is the model. Exhaustive tier: "
         "for every n in 1..N (N=10 quick, 12 thorough), every one of the 2^n states, every operation "
@@ -36,8 +36,12 @@ def strategy(tier):
     def case(draw):
         n = draw(st.one_of(st.integers(1, 20), st.integers(1, maxn),
                            st.sampled_from([7, 8, 9, 15, 16, 17, 63, 64, 65])))
+        big = draw(st.integers(0, 39)) == 0
+        if big:  # 1 case in 40: sizes beyond any block size an implementation might process at once (few operations then)
+            n = draw(st.one_of(st.sampled_from([511, 512, 513, 4088, 4089, 4096, 4097, 8191, 8192, 8193, 10000, 32768, 65537]),
+                               st.integers(300, 70000)))
         top = 8 * math.ceil(n / 8)
-        hot = draw(st.lists(st.integers(0, n - 1), min_size=1, max_size=5))
+        hot = draw(st.lists(st.one_of(st.integers(0, n - 1), st.integers(max(0, n - 70), n - 1)), min_size=1, max_size=5))
         idx = st.one_of(
             st.sampled_from(hot), st.sampled_from(hot),
             st.integers(0, n - 1),
@@ -50,7 +54,7 @@ def strategy(tier):
             st.tuples(st.just("assign"), idx, st.sampled_from(VALUES)),
             st.tuples(st.sampled_from(["clearall", "str", "count"])),
         )
-        ops = draw(st.lists(op, min_size=1, max_size=60))
+        ops = draw(st.lists(op, min_size=1, max_size=8 if big else 60))
         return {"n": n, "ops": [list(o) for o in ops]}
 
     return case()
@@ -78,7 +82,11 @@ def _build(Bitarray, n, bits, ctx):
 def _agree(ctx, b, model, what):
     n = len(model)
     s = "".join(str(x) for x in model)
-    ctx.check("C20.state", b.as_string() == s, lambda: f"{what}: as_string {b.as_string()} != model {s}")
+    def _diff():
+        got = b.as_string()
+        i = next((j for j, (x, y) in enumerate(zip(got, s)) if x != y), min(len(got), len(s)))
+        return f"{what}: as_string differs from the model at position {i} (len {len(got)} vs {len(s)}): ...{got[max(0, i - 8): i + 8]}... != ...{s[max(0, i - 8): i + 8]}..."
+    ctx.check("C20.state", b.as_string() == s, _diff)
     ctx.check("C20.state", b.num_bits_set() == sum(model), f"{what}: num_bits_set")
     ctx.check("C20.state", b.size == n and b.size_bytes == math.ceil(n / 8), f"{what}: size")
     ctx.check("C20.state", [b.check_bit(i) for i in range(n)] == model, f"{what}: check_bit sweep")
